@@ -14,7 +14,9 @@ from ..world import World, cause_chain, global_state_guard
 
 from .. import world as _world  # registers the CacheGetFailure look-alike
 
-EXC = list(FAULT_CLASSES) + ["UnhashableError"] * 5  # (the unhashable user exception is worth more than one draw in seventy)
+# (every builtin Exception type once; the ones that labrea's own except clauses name -- or could plausibly come to name -- and the
+#  unhashable user exception several times)
+EXC = list(FAULT_CLASSES) + ["UnhashableError"] * 14 + ["TypeError", "KeyError", "ValueError", "AttributeError", "LookupError", "StopIteration", "IndexError", "RuntimeError"] * 4
 
 
 def maskable_owners(spec):
